@@ -288,7 +288,9 @@ def constructed(task):
                     if fb:
                         codecs[0].rtcpFeedback = [RTCRtcpFeedback(type="nack"), RTCRtcpFeedback(type="nack", parameter="pli")]
                     if params:
-                        codecs[0].parameters = {"minptime": 10, "useinbandfec": 1} if kind == "audio" else {"x-flag": None, "level": "3"}
+                        # integer 0 and empty-string values are values, not flags
+                        codecs[0].parameters = {"minptime": 10, "useinbandfec": 0, "stereo": 0} if kind == "audio" else \
+                            {"x-flag": None, "level": "3", "x-empty": "", "max-fs": 0}
                     if kind == "video" and fb:
                         codecs.append(RTCRtpCodecParameters(mimeType="video/rtx", clockRate=90000, payloadType=97 + i, parameters={"apt": 96 + i}))
                     m = SDP.MediaDescription(kind=kind, port=9 if not cands else 5000, profile="UDP/TLS/RTP/SAVPF", fmt=[c.payloadType for c in codecs])
@@ -301,7 +303,9 @@ def constructed(task):
                         if rtcp == 2:
                             m.rtcp_host = "0.0.0.0"
                     if ssrc:
-                        m.ssrc = [SDP.SsrcDescription(ssrc=1000 + i, cname="c", msid="s t" if ssrc == 2 else None)]
+                        # (ssrc == 1: every section uses the SAME ssrc value - sections are independent of each other)
+                        base = 1000 + (i if ssrc == 2 else 0)
+                        m.ssrc = [SDP.SsrcDescription(ssrc=base, cname="c%d" % i, msid="s t" if ssrc == 2 else None)]
                         if ssrc == 2:
                             m.ssrc.append(SDP.SsrcDescription(ssrc=2000 + i, cname="c", mslabel="m", label="l"))
                             m.ssrc_group = [SDP.GroupDescription(semantic="FID", items=[1000 + i, 2000 + i])]
